@@ -44,6 +44,14 @@ Theorem C19_zst_cond_complete :
 Proof. exact (conj zst_complete_generated zst_none_generated). Qed.
 Print Assumptions C19_zst_cond_complete.
 
+(** No [macro_rules!] of the crate expands a caller-supplied expression, block, statement, token tree,
+    item or path inside its own [unsafe { .. }] block ([unsafe] is not hygienic): [unsize!], [field!] and
+    [unlock!] evaluate the caller's expression outside, in the caller's (safe) context. *)
+Theorem C19_macros_no_caller_code_in_unsafe :
+  forall e, In e unsafe_metavars -> metavar_harmless e = true.
+Proof. exact unsafe_metavars_lifted. Qed.
+Print Assumptions C19_macros_no_caller_code_in_unsafe.
+
 (** ** Non-vacuity *)
 Example C19_sigs_nonvacuous :
   forallb (fun on => existsb (fun f => String.eqb (fs_owner f) (fst on) && String.eqb (fs_name f) (snd on)) relevant_fns)
@@ -64,3 +72,11 @@ Example C19_sigs_discriminates :
                 (find_fn pub_fns "ZstCache" "alloc_zst") = Some true
   /\ relevant decls alloc_zst_prefix = true /\ sig_ok decls alloc_zst_prefix = false.
 Proof. exact (conj alloc_zst_unsafe_now (conj alloc_zst_prefix_fails alloc_zst_prefix_literal_fails)). Qed.
+
+Example C19_macros_nonvacuous :
+  forallb (fun n => existsb (String.eqb n) macro_names) ["unsize"; "__field"; "__unlock"] = true
+  /\ existsb (fun e => String.eqb (fst (fst e)) "unsize#0" && String.eqb (snd e) "ty") unsafe_metavars = true.
+Proof. exact macros_present. Qed.
+
+Example C19_macros_discriminates : metavar_harmless (("unsize#0", "gc"), "expr") = false.
+Proof. exact unsize_expr_in_unsafe_fails. Qed.
